@@ -119,9 +119,13 @@ typedef struct cxx_in_addr { uint32_t s_addr; } cxx_in_addr;
 typedef struct cxx_in6_addr { uint8_t s6_addr[16]; } cxx_in6_addr;
 typedef struct cxx_timeval { int64_t tv_sec; int64_t tv_usec; } cxx_timeval;
 typedef struct cxx_random_device { char _; } cxx_random_device;
+typedef struct cxx_rng { char _; } cxx_rng;   /* std::mt19937(_64) / uniform_int_distribution: opaque */
 #ifndef CXX_NATIVE
 uint32_t nondet_u32(void);
 static inline uint32_t cxx_nondet_u32(void) { return nondet_u32(); }   /* std::random_device: any value */
+uint64_t nondet_u64(void); int nondet_int(void);
+static inline uint64_t cxx_nondet_u64(void) { return nondet_u64(); }
+static inline int cxx_nondet_int(void) { return nondet_int(); }
 #endif
 
 #ifndef CXX_NATIVE
